@@ -83,7 +83,9 @@ def no_type_flow(F, rep):
     rep.analysed({"_path": "intermediate.rs + lua.rs"})
     # (2) projections on the type checker's state
     allowed_tc = {"variables"}
-    allowed_tv = {"name", "is_global", "id"}
+    # `definition` is the span where the variable is declared; it does not depend on types or annotations (the lowering
+    # uses its file_id to pick the main file's `start`)
+    allowed_tv = {"name", "is_global", "id", "definition"}
     cnt = 0
     for fn, node in nonint.field_projections(F, lambda t: "typechecker::TypeChecker" in t or "typechecker::TypeVariable" in t):
         cnt += 1
@@ -220,10 +222,20 @@ def same_node(F, rep):
     # resolver copies ty into the resolved node but nothing else depends on it
     rs = F.fn(R + "statement")
     ok = False
+    flr = Flow(rs, fn_body(rs))
     for s in nodes(fn_body(rs), "Struct"):
         if s["path"].endswith("Statement::Definition"):
-            f = {x["name"]: pp(peel(x["e"])) for x in s["fields"]}
-            ok = f.get("ty", "").startswith("self.ty(ty)")
+            f = {x["name"]: x["e"] for x in s["fields"]}
+            src = peel(f.get("ty"))
+            if src.get("k") == "Path" and src.get("res") == "Local":
+                src = peel(flr.trace(src))
+            if src.get("k") == "Try":
+                src = peel(src["e"])
+            is_ty = src.get("k") == "MethodCall" and callee(src) == R + "ty"
+            # no other field is computed from the resolved annotation
+            ty_hids = {x["hid"] for x in nodes(f.get("ty"), "Path") if x.get("res") == "Local"}
+            others = any(x.get("hid") in ty_hids for k, v in f.items() if k != "ty" for x in nodes(v, "Path") if x.get("res") == "Local")
+            ok = is_ty and not others
     rep.ob("SAME-NODE", "Resolver|ty-only-in-ty", ok, "the resolver stores the resolved annotation only in the node's `ty` field", rs["sp"])
     fx = F.fn("sylt_parser::expression::function")
     t = pp(fn_body(fx))
